@@ -142,6 +142,89 @@ theorem assemble_edge {plans : List Plan} {i : Nat} {p : Plan} (hp : plans[i]? =
       exact mem_addEdge_fold _ _ _ _ hj
     · exact ih hm _
 
+/-! ### converses: where the elements of a successful `mapE` and the edges of `assemble` come from -/
+
+theorem mapE_ok_mem_inv {α β ε : Type} {f : α → Except ε β} {l : List α} {bs : List β}
+    (h : mapE f l = .ok bs) {b : β} (hb : b ∈ bs) : ∃ a, a ∈ l ∧ f a = .ok b := by
+  induction l generalizing bs with
+  | nil =>
+    simp only [mapE] at h
+    cases h
+    cases hb
+  | cons a as ih =>
+    simp only [mapE] at h
+    split at h
+    · cases h
+    · rename_i b0 hf
+      split at h
+      · cases h
+      · rename_i bs0 hbs
+        cases h
+        rcases List.mem_cons.1 hb with rfl | hb
+        · exact ⟨a, List.mem_cons_self, hf⟩
+        · obtain ⟨a', ha', hfa'⟩ := ih hbs hb
+          exact ⟨a', List.mem_cons_of_mem _ ha', hfa'⟩
+
+theorem mapE_ok_length {α β ε : Type} {f : α → Except ε β} {l : List α} {bs : List β}
+    (h : mapE f l = .ok bs) : bs.length = l.length := by
+  induction l generalizing bs with
+  | nil =>
+    simp only [mapE] at h
+    cases h
+    rfl
+  | cons a as ih =>
+    simp only [mapE] at h
+    split at h
+    · cases h
+    · split at h
+      · cases h
+      · rename_i bs0 hbs
+        cases h
+        simp [ih hbs]
+
+theorem mem_addEdge_fold_inv (i : Goal) (ps : List Goal) (es : List (Goal × Goal)) (e : Goal × Goal)
+    (h : e ∈ ps.foldl (addEdge i) es) : e ∈ es ∨ (e.2 = i ∧ e.1 ∈ ps) := by
+  induction ps generalizing es with
+  | nil => exact Or.inl h
+  | cons p ps ih =>
+    rw [List.foldl_cons] at h
+    rcases ih _ h with h | ⟨h1, h2⟩
+    · unfold addEdge at h
+      split at h
+      · exact Or.inl h
+      · rcases List.mem_append.1 h with h | h
+        · exact Or.inl h
+        · simp only [List.mem_singleton] at h
+          subst h
+          exact Or.inr ⟨rfl, List.mem_cons_self⟩
+    · exact Or.inr ⟨h1, List.mem_cons_of_mem _ h2⟩
+
+/-- Every edge of the assembled goal graph was added for a parent in the plan of its target. -/
+theorem assemble_edge_inv {plans : List Plan} {j i : Goal} (h : (j, i) ∈ (assemble plans).edges) :
+    ∃ p, plans[i]? = some p ∧ j ∈ p.parents := by
+  unfold assemble at h
+  simp only at h
+  have key : ∀ (L : List (Plan × Nat)) (es : List (Goal × Goal)),
+      (j, i) ∈ L.foldl (fun es (p : Plan × Nat) => p.1.parents.foldl (addEdge p.2) es) es →
+      (j, i) ∈ es ∨ ∃ q ∈ L, q.2 = i ∧ j ∈ q.1.parents := by
+    intro L
+    induction L with
+    | nil => intro es h; exact Or.inl h
+    | cons q L ih =>
+      intro es h
+      rw [List.foldl_cons] at h
+      rcases ih _ h with h | ⟨q', hq', h1, h2⟩
+      · rcases mem_addEdge_fold_inv _ _ _ _ h with h | ⟨h1, h2⟩
+        · exact Or.inl h
+        · exact Or.inr ⟨q, List.mem_cons_self, h1.symm, h2⟩
+      · exact Or.inr ⟨q', List.mem_cons_of_mem _ hq', h1, h2⟩
+  rcases key _ _ h with h | ⟨q, hq, h1, h2⟩
+  · cases h
+  · obtain ⟨p, k⟩ := q
+    simp only at h1 h2
+    subst h1
+    exact ⟨p, List.mem_zipIdx_iff_getElem?.1 hq, h2⟩
+
 /-! ### `findGoal`, `nodePred` -/
 
 theorem findGoal_some {goals : List GoalKind} {g : GoalKind} {j : Nat} (h : findGoal goals g = some j) :
